@@ -716,7 +716,9 @@ func (m *Model) stepWrite(in *In, out *Out) error {
 	if dl < wantN {
 		wantN = dl
 	}
-	if n != wantN {
+	if m.NoSpace && n > 0 && n < wantN {
+		// a short write is legal when space runs out part-way; the prefix was written
+	} else if n != wantN {
 		return mm("write to %s off %d count %d (data %d bytes): reply says %d bytes written", m.PathOf(o), in.Off, cnt, dl, n)
 	}
 	if out.Commit < in.How {
